@@ -16,6 +16,7 @@ type ln struct {
 var tabMode = 0 // 0 all, 1 only runs starting at column 0, 2 only runs right after '>', 3 only runs right after a list marker
 
 type Z struct {
+	extraParas     map[int][]Block // paragraphs the serialiser added in front of top-level block k (near-miss title lines)
 	forceSpaceHard bool
 	s              Src
 	tabs           bool
@@ -560,6 +561,17 @@ func (z *Z) doc(d Doc) string {
 				_, afterList = d.Blocks[k-1].(List)
 			}
 			ls = append(ls, z.def(df, !afterList)...)
+		}
+		if last := slots[k][len(slots[k])-1]; last.Title == nil && coin(z.s, 1, 4) {
+			// near miss: a title-like line followed by more text is not a title
+			// but a paragraph of its own; the definition stays without title
+			pseudo := []string{"\"abc\" def", "'abc' def", "(abc) def", "\"abc\" [x]", "\"a\" \"b\""}[z.s.Intn(5)]
+			ls = append(ls, sp(z.s.Intn(3))+pseudo)
+			if z.extraParas == nil {
+				z.extraParas = map[int][]Block{}
+			}
+			z.extraParas[k] = append(z.extraParas[k], Para{[]Inline{Text{pseudo}}})
+			z.note("near-miss-title-line")
 		}
 		groups = append(groups, ls)
 	}
